@@ -14,7 +14,7 @@ import numpy as np
 
 from vcgen import interp, prims
 from vcgen import poly as P
-from vcgen.harness import Contract, Instance, eq, gt, holds
+from vcgen.harness import Contract, Instance, eq, ge, gt, holds, hoare_while
 
 from .gaussians import DenseL, cov, law
 
@@ -127,6 +127,131 @@ def double_contract():
                     doc="(e^A, U) -> (e^{2A}, U') with U'U'^T = U U^T + e^A U U^T e^{A^T} (doubling of the Gramian)")
 
 
+# ---- the scaling-and-squaring loop of exp_gram_cholesky (while rule, every trip count) -------------------------
+
+_CUR = {}
+
+
+def loop_contract():
+    """``exp_gram_cholesky(...)(A, B)`` with the initialiser abstracted (arbitrary (eA0, U0, s)): the loop applies the
+    doubling recursion  Phi <- Phi^2,  G <- G + Phi G Phi^T  exactly ``count`` times to (eA0, U0 U0^T), where
+    ``count`` is the smallest non-negative integer with count >= s; the final sign fix keeps the Gramian and makes
+    the diagonal non-negative.  Ghost state: (count, Phi, G) advanced by the exact recursion."""
+
+    def wrap(target):
+        def f(A, B, eA0, U0, s):
+            import importlib
+
+            M = importlib.import_module(GU)
+            seen = {}
+
+            def init_stub(A_, B_, *, pade_legendre, solve):
+                seen.update(A=A_, B=B_)
+                return eA0, U0, s
+
+            def inv(init, st, g):
+                i, (eA, U) = st
+                n = U.shape[0]
+                mask = jnp.triu(jnp.ones((n, n)), k=1)
+                return [
+                    eq("counter_counts_doublings", i, g["count"]), ge("counter_nonneg", g["count"]),
+                    holds("no_superfluous_doubling", jnp.logical_or(g["count"] <= 0.0, g["count"] - 1.0 < s)),
+                    eq("exponential_is_ghost_recursion", eA, g["Phi"]),
+                    eq("gramian_is_ghost_recursion", U @ U.T, g["G"]),
+                    eq("factor_lower_triangular", U * mask, 0.0),
+                ]
+
+            rule = hoare_while(
+                inv, name="doubling",
+                ghost_init=lambda init: {"count": jnp.asarray(0.0), "Phi": init[1][0], "G": init[1][1] @ init[1][1].T},
+                ghost_step=lambda init, st, g, st1: {"count": g["count"] + 1.0, "Phi": g["Phi"] @ g["Phi"], "G": g["G"] + g["Phi"] @ g["G"] @ g["Phi"].T},
+                expose=lambda init, s2, g2: _CUR.update(ghost=g2),
+            )
+            old_init, old_loop = M._exp_gram_cholesky_init, M.flow.while_loop
+            M._exp_gram_cholesky_init, M.flow.while_loop = init_stub, rule
+            try:
+                eA, U = target(pade_legendre=None, solve=None)(A, B)
+            finally:
+                M._exp_gram_cholesky_init, M.flow.while_loop = old_init, old_loop
+            g2 = _CUR["ghost"]
+            return eA, U, seen["A"], seen["B"], g2["count"], g2["Phi"], g2["G"]
+
+        return f
+
+    def requires(A, B, eA0, U0, s):
+        n = U0.shape[0]
+        return [eq("initial_factor_lower_triangular", U0 * jnp.triu(jnp.ones((n, n)), k=1), 0.0)]
+
+    def ensures(res, A, B, eA0, U0, s):
+        eA, U, A_seen, B_seen, count, Phi, Gm = res
+        n = U.shape[0]
+        mask = jnp.triu(jnp.ones((n, n)), k=1)
+        return [
+            eq("initialiser_receives_A", A_seen, A), eq("initialiser_receives_B", B_seen, B),
+            eq("exponential_is_doubling_recursion_after_count_steps", eA, Phi),
+            eq("gramian_is_doubling_recursion_after_count_steps", U @ U.T, Gm),
+            eq("factor_lower_triangular", U * mask, 0.0),
+            ge("factor_diagonal_nonnegative", jnp.diagonal(U)),
+            ge("enough_doublings", count - s), ge("count_nonneg", count),
+            holds("no_superfluous_doubling", jnp.logical_or(count <= 0.0, count - 1.0 < s)),
+        ]
+
+    def instances(tier):
+        out = []
+        for n in (2,) + ((3,) if tier == "thorough" else ()):
+            def make(rng, n=n):
+                return (jnp.asarray(rng.normal(size=(n, n))), jnp.asarray(rng.normal(size=(n, n))), jnp.asarray(rng.normal(size=(n, n))), jnp.asarray(np.tril(rng.normal(size=(n, n)))), jnp.asarray(2.0)), {}
+            out.append(Instance(f"n={n}", make, names=lambda a, k: {id(a[0]): "A", id(a[1]): "B", id(a[2]): "eA0", id(a[3]): "U0", id(a[4]): "s"}))
+        return out
+
+    return Contract(name=f"{GU}:exp_gram_cholesky[loop]", module=GU, qualname="exp_gram_cholesky", wrap=wrap, requires=requires, ensures=ensures, instances=instances,
+                    doc="scaling-and-squaring loop (while rule, all trip counts): result = doubling recursion applied ceil(max(s,0)) times to the initialiser's output; sign fix keeps the Gramian")
+
+
+def init_scaling_contract():
+    """``_exp_gram_cholesky_init``: the initialiser is called on (A / 2^s, B / sqrt(2^s)) with the returned s >= 0, and
+    its outputs are passed through unchanged (the Pade/Legendre initialiser itself is abstract here; its order
+    conditions are decided in pade_orders)."""
+
+    def wrap(target):
+        def f(A, B, E0, U0):
+            import importlib
+
+            M = importlib.import_module(GU)
+            seen = {}
+
+            def init_stub(A_, B_, *, solve):
+                seen.update(A=A_, B=B_)
+                return E0, U0
+
+            pl = M.PadeLegendre(q=3, eta_fp64=0.0006794818550677766, eta_fp32=0.048, init=init_stub)
+            eA, S, num = target(A, B, pade_legendre=pl, solve=None)
+            return eA, S, num, seen["A"], seen["B"]
+
+        return f
+
+    def ensures(res, A, B, E0, U0):
+        eA, S, num, A_seen, B_seen = res
+        p = 2.0**num
+        return [
+            ge("number_of_doublings_nonneg", num),
+            eq("drift_scaled_by_2^-s", A_seen * p, A),
+            eq("dispersion_scaled_by_2^-s/2", B_seen * jnp.sqrt(p), B),
+            eq("exponential_passed_through", eA, E0), eq("factor_passed_through", S, U0),
+        ]
+
+    def instances(tier):
+        out = []
+        for n in (2, 3):
+            def make(rng, n=n):
+                return tuple(jnp.asarray(rng.normal(size=(n, n))) for _ in range(4)), {}
+            out.append(Instance(f"n={n}", make, names=lambda a, k: {id(a[0]): "A", id(a[1]): "B", id(a[2]): "E0", id(a[3]): "U0"}))
+        return out
+
+    return Contract(name=f"{GU}:_exp_gram_cholesky_init", module=GU, qualname="_exp_gram_cholesky_init", wrap=wrap, ensures=ensures, instances=instances,
+                    doc="scaling step: initialiser sees (A 2^-s, B 2^-s/2), s >= 0 is returned as the number of doublings")
+
+
 # ---- transition() of the dense exponential prior -----------------------------------------------------
 
 
@@ -225,5 +350,5 @@ def transition_contract(kind, diffuse=0):
 
 
 def contracts():
-    return [double_contract(), transition_contract("general"), transition_contract("ou"), transition_contract("matern"),
+    return [double_contract(), loop_contract(), init_scaling_contract(), transition_contract("general"), transition_contract("ou"), transition_contract("matern"),
             transition_contract("matern", diffuse=1), transition_contract("ou", diffuse=1), transition_contract("general", diffuse=1)]
